@@ -267,6 +267,10 @@ class Unit:
 
         assert result is not None, f"{substance} {quantity} {from_unit} {to_unit}"
 
+        if from_unit == 'L' and to_unit != 'L' and substance.density == float('inf'):
+            # default_solid_density / default_enzyme_density set to inf: the substance takes up no volume
+            raise ValueError(f"{substance.name} has no volume and cannot be measured by volume.")
+
         return result / Unit.convert_prefix_to_multiplier(prefix)
 
     @staticmethod
